@@ -1143,6 +1143,35 @@ def rewrite_case(ctx, case):
 COMPONENTS['rewrite'] = rewrite_case
 
 
+def route_case(ctx, case):
+    """'For every incoming packet ... each listener runs exactly once' - also
+    for a packet that is read in the same pass of the networking loop in
+    which writing a queued packet has just failed (the error is only raised
+    after the read phase): C14's scenario in which the listener for that
+    packet is the one that raises.  If it is skipped, its fault never
+    happens (clause X-fault-not-injected)."""
+    from props import c14_exceptions as P14
+    P14.route_case(ctx, case)
+
+
+COMPONENTS['route'] = route_case
+
+
+def t_pending_write_error(ctx):
+    from props import c14_exceptions as P14
+    for origin in ('listener', 'early_listener'):
+        for v in (757, 340, 47):
+            for final in ('return', 'none'):
+                for comp in (None, 64):
+                    route_case(ctx, P14.fix_case({
+                        'origin': origin, 'exc': 'B', 'chain': [],
+                        'final': final, 'final_new': 'C', 'compress': comp,
+                        'version': v, 'pending_write_error': True}))
+    ctx.exhaustive_done('listener dispatch of a packet read while a write '
+                        'error is pending: 2 stages x 3 protocols x 2 finals '
+                        'x 2 compression modes')
+
+
 def t_rewrite(ctx):
     k = 0
     for v in (757, 340, 47):
@@ -1178,7 +1207,8 @@ def t_random(ctx, n):
 def tasks(tier):
     q = tier == 'quick'
     tl = [('fixed', t_fixed, {}), ('ignore_success', t_ignore_success, {}),
-          ('rewrite', t_rewrite, {})]
+          ('rewrite', t_rewrite, {}),
+          ('pending_write_error', t_pending_write_error, {})]
     for i in range(10 if q else 16):
         tl.append(('random_%d' % i, t_random, dict(n=300 if q else 2500)))
     for i in range(2 if q else 4):
